@@ -581,13 +581,31 @@ func (c *canon) val(v ssa.Value, d int) string {
 		if c.phis[x] {
 			return "loop"
 		}
-		c.phis[x] = true
-		defer delete(c.phis, x)
+		// the set of values that can arrive: nested merges are flattened (phi{a|phi{b|c}} = phi{a|b|c}),
+		// so that the form does not depend on how many join points the source happens to have
 		var alts []string
-		for _, e := range x.Edges {
-			alts = append(alts, c.val(e, d-1))
+		var opened []*ssa.Phi
+		var expand func(ph *ssa.Phi)
+		expand = func(ph *ssa.Phi) {
+			c.phis[ph] = true
+			opened = append(opened, ph)
+			for _, e := range ph.Edges {
+				if in, ok := e.(*ssa.Phi); ok && !c.phis[in] && isLoopCounter(in) == 99 && isDownCounter(in) == nil {
+					expand(in)
+					continue
+				}
+				alts = append(alts, c.val(e, d-1))
+			}
 		}
-		return "phi{" + joinSet(alts) + "}"
+		expand(x)
+		for _, ph := range opened {
+			delete(c.phis, ph)
+		}
+		set := joinSet(alts)
+		if !strings.Contains(set, "|") && set != "loop" && set != "" {
+			return set
+		}
+		return "phi{" + set + "}"
 	case *ssa.MakeMap:
 		return "newmap<" + namedOf(x.Type()) + ">"
 	case *ssa.MakeSlice:
